@@ -201,8 +201,9 @@ JoinApply(U, dst, src, lid) ==
       ents1   == dst.ents \cup newS
       nidx1   == dst.nidx \cup NextsOf(U, newS)
       merged  == FindHeadsSeq(U, MergeKeys(dst.heads, src.heads))
-      \* notReferencedByNewItems and notInCurrentNexts (the reverse index after the update)
-      heads1  == FilterSeq(merged, SeqRange(merged) \ (NextsOf(U, newS) \cup nidx1))
+      \* notReferencedByNewItems, notInCurrentNexts (the reverse index after the update), and - since
+      \* the repair of the foreign-head defect - only entries the log holds
+      heads1  == FilterSeq(merged, (SeqRange(merged) \ (NextsOf(U, newS) \cup nidx1)) \cap ents1)
   IN [ents |-> ents1, heads |-> heads1, nidx |-> nidx1, new |-> new]
 
 MaxTimeOf(U, s, def) ==
